@@ -26,7 +26,7 @@ NEEDS = {"cmds": ["posdrv"], "specs": ["Posmint", "PosmintSim", "Trace_Posmint"]
 
 # deviations of the code from the intended design that are currently OPEN known findings: the
 # trace monitor follows the code with these switched on (DESIGN.md 6.3); empty when all repaired
-ACTIVE_DEV = set()
+ACTIVE_DEV = {"SimulateWritesRoot"}   # KF-C11-simulate-writes (open): the monitor follows the code
 
 BASE = dict(N=2, PR=2, MinStake=2, MaxVals=1, UnstakeTime=1, Window=2, MinSignedNum=1, MinSignedDen=2,
             JailDur=1, MaxEvAge=1, FracDen=4, FracDS=2, FracDT=1, Fee=1, GenBal=(9, 9), GenVals=set(),
